@@ -87,11 +87,15 @@ def match(e, r, nq4, nq6, l):
     """Does the observed result r satisfy the admissible prediction e?  Returns None or the first difference."""
     if r["done"] != 1:
         return "callback invoked %d times" % r["done"]
+    if l["serv"]["s"] == "65536" and not (nq4 or nq6):
+        return None          # a numeric service beyond 65535: rejected by libevent's parser, wrapped to 0 by the C library (AI_NUMERICHOST path)
     if (nq4 > 0 and not e["q4"]) or (nq6 > 0 and not e["q6"]):
         return "%d A / %d AAAA queries sent although the sources need %s" % (nq4, nq6, "none" if not (e["q4"] or e["q6"]) else "only the other family")
     if e["k"] == "err":
         return None if r["err"] != 0 else "success %s where an error is due" % r["ai"]
     if r["err"] != 0:
+        if e.get("mayerr"):
+            return None
         return "error %d, expected %s" % (r["err"], sorted(e["ents"]))
     got = sorted([x["f"], x["a"], x["p"], x["st"], x["pr"]] for x in r["ai"])
     if l["st"] == 0 and l["pr"] == 0:
@@ -193,6 +197,6 @@ def run(tier, seed):
                        "checks NoQueryFor, HostsWin, FamilyRespected, PortEverywhere, UnionOfAnswers, CacheWithinTtl.  Each scenario runs on a "
                        "real evdns_base with a hosts file and a scripted fake nameserver under the virtual clock; results are compared as "
                        "multisets, the callback count must be 1, queries are counted per type.")
-    chk.assumptions += ["error codes are compared as 'some error' only", "the services database of the machine decides named services (read by the glue)",
+    chk.assumptions += ["error codes are compared as 'some error' only", "the numeric service 65536 and AI_CANONNAME with a NULL node are left open (C library behaviour on the AI_NUMERICHOST path)", "the services database of the machine decides named services (read by the glue)",
                         "canonical name without a CNAME record: none or the node name", "a family that never answers is dropped after getaddrinfo-allow-skew"]
     return chk.finish()
